@@ -9,49 +9,59 @@ CNT = 'libgalois/src/Barrier_Counting.cpp'
 DIS = 'libgalois/src/Barrier_Dissemination.cpp'
 UNITS = []
 
-CP = '''
-#define GV_RELY_NONE
-#include "gv_atomic.h"
+# One generic rule for every spin loop of the barriers:  while (COND) { asmPause(); }
+#   bounded runs (gv_sc.h):   SC_AWAIT(tid, !(COND))      -- COND's shared reads are plain .v reads there
+#   step contracts:           the loop stays, COND's shared reads are sc_load_x() calls (environment step before each)
+def spin_sc(n):
+    return rx(r'while \((?P<c>[^{}]*?)\)\s*\{\s*galois::substrate::asmPause\(\);\s*\}', lambda m: 'SC_AWAIT(tid, !(%s));' % ' '.join(m.group('c').split()), n, n, flags=re.S)
+PAUSE = ren('galois::substrate::asmPause', 'asmPause')
+
+CP = """
 #define GV_MAXT 16u
-struct CB { gv_atomic count; gv_atomic sense; unsigned num; bool local_sense[GV_MAXT]; unsigned nls; };
+struct CB { sc_u count; sc_b sense; unsigned num; bool local_sense[GV_MAXT]; unsigned nls; };
 unsigned g_tid, g_s;
-static inline unsigned gv_getTID(void) { return g_tid; }
 static inline void asmPause(void) {}
 static inline bool* ls_at(struct CB* b, unsigned i) { __CPROVER_assert(i < b->nls, "local_sense.at(): index in range"); return &b->local_sense[i]; }
 static inline void ls_resize(struct CB* b, unsigned n) { __CPROVER_assert(n <= GV_MAXT, "configuration bound"); b->nls = n; }
 #define B(x) ((x) != 0)
-'''
+"""
 WITHIN = r'class CountingBarrier\b'
 CNT_REINIT_RULES = [rx(r'count = num = val;', 'self->num = val; self->count.v = val;', 1, 1), rx(r'(?<![\w.>])sense\s*=\s*false;', 'self->sense.v = 0;', 1, 1),
                     rx(r'local_sense\.resize\(val\)', 'ls_resize(self, val)', 1, 1), rx(r'local_sense\.at\(i\)\.get\(\)', '(*ls_at(self, i))', 1, 1)]
 UNITS.append(Unit(
     name='CountingBarrier_reinit', src=CNT, within=WITHIN, anchor=r'void _reinit\(unsigned val\)', proto='void CountingBarrier_reinit(struct CB* self, unsigned val)',
-    contract='''__CPROVER_requires(__CPROVER_is_fresh(self, sizeof(*self)) && val >= 1 && val <= GV_MAXT && g_s < GV_MAXT)
+    contract="""__CPROVER_requires(__CPROVER_is_fresh(self, sizeof(*self)) && val >= 1 && val <= GV_MAXT && g_s < GV_MAXT)
 __CPROVER_ensures(self->count.v == val && self->num == val && self->sense.v == 0 && self->nls == val && (g_s < val ==> !B(self->local_sense[g_s])))
-__CPROVER_assigns(__CPROVER_object_whole(self))''',
-    prelude=[CP],
+__CPROVER_assigns(__CPROVER_object_whole(self))""",
+    prelude=['#define GV_CELLS_PLAIN\n#include "gv_cells.h"\n', CP],
     lower=CNT_REINIT_RULES,
     loops={1: '__CPROVER_assigns(i, __CPROVER_object_whole(self))\n__CPROVER_loop_invariant(i <= val && val <= GV_MAXT && self->nls == val && self->count.v == val && self->num == val && self->sense.v == 0 && ((g_s < i) ==> !B(self->local_sense[g_s])))\n__CPROVER_decreases(val - i)'},
     fallback_unwind=18, no_flags=['--conversion-check'], inst='participants <= 16',
     says='re-initialisation to any participant count: counter = participants, global sense and every local sense false -- whatever the previous state (reuse with another count)'))
+# token-level rules shared by the step contract and the bounded runs; only shared READS and spin loops differ
+CNT_WAIT_COMMON = [rx(r'bool& lsense\s*=\s*local_sense\.at\(galois::substrate::ThreadPool::getTID\(\)\)\.get\(\);', 'bool* lsense_p = ls_at(self, tid);', 1, 1), rx(r'(?<![\w.>])lsense(?![\w])', '(*lsense_p)', 3),
+                   rx(r'--count(?![\w])', 'sc_dec_u(&self->count)', 1), rx(r'(?<![\w.>&])count = ([^;]+);', r'sc_store_u(&self->count, \1);', 1), rx(r'(?<![\w.>&])sense = ([^;]+);', r'sc_store_b(&self->sense, \1);', 1),
+                   rx(r'(?<![\w.>])num(?![\w])', 'self->num', 1)]
+CNT_WAIT_TM = CNT_WAIT_COMMON + [rx(r'(?<![\w.>&])sense(?![\w])', 'sc_load_b(&self->sense)', 1), PAUSE]
+CNT_WAIT_SC = CNT_WAIT_COMMON + [rx(r'(?<![\w.>&])sense(?![\w])', 'self->sense.v', 1), spin_sc(1)]
 UNITS.append(Unit(
-    name='CountingBarrier_wait', src=CNT, within=WITHIN, anchor=r'virtual void wait\(\)', proto='void CountingBarrier_wait(struct CB* self)',
-    contract='''__CPROVER_requires(__CPROVER_is_fresh(self, sizeof(*self)) && self->nls <= GV_MAXT && g_tid < self->nls && self->num >= 1 && g_lin_count == 0 && self->local_sense[g_tid] <= 1)
-__CPROVER_ensures(B(self->local_sense[g_tid]) == !B(__CPROVER_old(self->local_sense[g_tid])))
-/* either I was the last to arrive: I re-armed the counter and published my sense (two more writes after the decrement) ... */
-/* ... or I left only after OBSERVING the global sense equal to my new local sense */
-__CPROVER_ensures(g_lin_count == 3 ? (g_lin_new == (B(self->local_sense[g_tid]) ? 1u : 0u) && g_last_write_order == memory_order_seq_cst) : (g_lin_count == 1 && B(g_last_read) == B(self->local_sense[g_tid]) && g_last_load_order == memory_order_seq_cst))
-__CPROVER_assigns(self->count.v, self->sense.v, self->local_sense[g_tid], g_lin_count, g_lin_old, g_lin_new, g_last_read, g_last_load_order, g_last_write_order)''',
-    prelude=[CP],
-    lower=[ren('galois::substrate::ThreadPool::getTID', 'gv_getTID'), ren('galois::substrate::asmPause', 'asmPause'),
-           rx(r'bool& lsense\s*=\s*local_sense\.at\(gv_getTID\(\)\)\.get\(\);', 'bool* lsense_p = ls_at(self, gv_getTID());', 1, 1), rx(r'(?<![\w.>])lsense(?![\w])', '(*lsense_p)', 4),
-           rx(r'--count == 0', '(gv_fetch_add(&self->count, (uint64_t)-1, memory_order_seq_cst) - 1) == 0', 1, 1),
-           rx(r'(?<![\w.>])count = num;', 'gv_store(&self->count, self->num, memory_order_seq_cst);', 1, 1),
-           rx(r'(?<![\w.>])sense = \(\*lsense_p\);', 'gv_store(&self->sense, (*lsense_p), memory_order_seq_cst);', 1, 1),
-           rx(r'while \(sense != \(\*lsense_p\)\)', 'while (B(gv_load(&self->sense, memory_order_seq_cst)) != B(*lsense_p))', 1, 1)],
-    loops={1: '__CPROVER_assigns(self->count.v, self->sense.v, g_last_read, g_last_load_order)\n__CPROVER_loop_invariant(g_lin_count == 1)'},
-    no_flags=['--conversion-check'],
-    says='one wait(): the caller flips its local sense (its phase state is re-armed for the next phase); the thread whose decrement reaches zero resets the counter to the participant count and publishes the new sense with seq_cst stores; every other thread returns only after observing (seq_cst load) the global sense equal to its new local sense -- arrival (the RMW on the counter) to departure (the sense store / load) are seq_cst operations, hence happens-before edges'))
+    name='CountingBarrier_wait', src=CNT, within=WITHIN, anchor=r'virtual void wait\(\)', proto='void CountingBarrier_wait(struct CB* self, unsigned tid)',
+    contract="""__CPROVER_requires(__CPROVER_is_fresh(self, sizeof(*self)) && self->nls <= GV_MAXT && tid < self->nls && self->num >= 1 && g_seq == 0 && self->local_sense[tid] <= 1 && GV_CELL_CLEAN(self->count) && GV_CELL_CLEAN(self->sense))
+/* the caller's local sense flips: its phase state is re-armed */
+__CPROVER_ensures(B(self->local_sense[tid]) == !B(__CPROVER_old(self->local_sense[tid])))
+/* arrival: exactly one read-modify-write that decrements the counter */
+__CPROVER_ensures(self->count.nw >= 1 && self->count.rseq > 0)
+/* either the decrement reached zero: the caller re-armed the counter to the participant count and THEN published its new sense ... */
+/* ... or it left only after reading the global sense equal to its new local sense, after its own arrival; it wrote nothing else */
+__CPROVER_ensures(self->count.nw == 2 ? (self->count.lastw == self->num && self->sense.nw == 1 && B(self->sense.lastw) == B(self->local_sense[tid]) && self->sense.wseq > self->count.wseq && self->sense.rseq == 0)
+                                      : (self->count.nw == 1 && self->count.lastw == self->count.lastr - 1u && self->sense.nw == 0 && B(self->sense.lastr) == B(self->local_sense[tid]) && self->sense.rseq > self->count.wseq))
+__CPROVER_ensures(self->num == __CPROVER_old(self->num))
+__CPROVER_assigns(g_seq, __CPROVER_object_whole(self))""",
+    prelude=['#include "gv_cells.h"\n', CP],
+    lower=CNT_WAIT_TM,
+    loops={1: '__CPROVER_assigns(g_seq, __CPROVER_object_upto((char*)&self->sense, sizeof(self->sense)))\n__CPROVER_loop_invariant(g_seq >= __CPROVER_loop_entry(g_seq) && self->sense.nw == 0)'},
+    no_flags=['--conversion-check'], fallback_unwind=4,
+    says='one wait(): the caller flips its local sense (its phase state is re-armed for the next phase); the thread whose decrement reaches zero resets the counter to the participant count and only then publishes the new sense; every other thread returns only after observing the global sense equal to its new local sense, after its own arrival'))
 
 # ---- BOUNDED stand-ins: the extracted wait() bodies under CBMC threads (stubs/gv_sc.h) -------------------
 def sc_harness(P, PH, init, waitcall, tids=None):
@@ -76,7 +86,6 @@ def sc_prelude(P, PH, text):
     return ['#define SC_P %d\n#define SC_PH %d\n#define GV_MAXT %du\n' % (P, PH, P) + text]
 
 CSC = '''
-#define SC_PRED(t) (BAR.sense.v == (sc_arg[t] != 0))
 #include "gv_sc.h"
 struct CB { sc_u count; sc_b sense; unsigned num; bool local_sense[GV_MAXT]; unsigned nls; };
 struct CB BAR;
@@ -90,10 +99,7 @@ for (P_, PH_, tier_) in ((2, 3, 'quick'), (3, 2, 'quick'), (3, 3, 'thorough')):
         name='CountingBarrier_phases_bounded_%dx%d' % (P_, PH_), kind='bounded', unwind=5, dfcc=False, bound_desc='%d threads x %d phases, sequentially consistent interleavings' % (P_, PH_), tier=tier_,
         src=CNT, within=WITHIN, anchor=r'virtual void wait\(\)', proto='void CountingBarrier_wait_sc(struct CB* self, unsigned tid)', contract='',
         prelude=sc_prelude(P_, PH_, CSC), inline=['CountingBarrier_reinit_sc'],
-        lower=[rx(r'bool& lsense\s*=\s*local_sense\.at\(galois::substrate::ThreadPool::getTID\(\)\)\.get\(\);', 'bool* lsense_p = ls_at(self, tid);', 1, 1), rx(r'(?<![\w.>])lsense(?![\w])', '(*lsense_p)', 4),
-               rx(r'--count == 0', 'sc_dec_u(&self->count) == 0', 1, 1), rx(r'(?<![\w.>])count = num;', 'sc_store_u(&self->count, self->num);', 1, 1),
-               rx(r'(?<![\w.>])sense = \(\*lsense_p\);', 'sc_store_b(&self->sense, (*lsense_p));', 1, 1),
-               rx(r'while \(sense != \(\*lsense_p\)\) \{\s*galois::substrate::asmPause\(\);\s*\}', 'SC_AWAIT(tid, 1, (*lsense_p), self->sense.v == (*lsense_p));   /* spin loop */', 1, 1)],
+        lower=CNT_WAIT_SC,
         reach=True, flags=['--no-standard-checks'], no_flags=SC_NOFLAGS, timeout=2400,
         says='BOUNDED: %d participants, %d consecutive phases (barrier reused without re-initialisation): no thread returns from its k-th wait before every participant entered its k-th wait, no reachable state has a thread waiting forever, the end of the last phase is reachable' % (P_, PH_),
         **sc_harness(P_, PH_, '  CountingBarrier_reinit_sc(&BAR, SC_P);\n', 'CountingBarrier_wait_sc(&BAR, tid)')))
@@ -135,15 +141,11 @@ __CPROVER_assigns(NN, __CPROVER_object_whole(NODES))""" % mcs_node_facts('g_s'),
     says='MCS barrier tables for every participant count <= 16, for an arbitrary node s: arrival slots havechild/childnotready[j] are set exactly for the existing children 4s+j+1, the arrival pointer of s is slot (s-1)%4 of node (s-1)/4, the wake-up pointers are the parentsense flags of nodes 2s+1 and 2s+2, sense true, parentsense false -- whatever the previous state (re-initialisation)'))
 
 MCS_WAIT_COMMON = [rx(r'treenode& n = nodes\.at\(galois::substrate::ThreadPool::getTID\(\)\)\.get\(\);', 'struct mcs_node* n = mcs_at(tid);', 1, 1),
-                   rx(r'n\.childnotready\[i\] = n\.havechild\[i\];', 'sc_store_b(&n->childnotready[i], n->havechild[i]);', 1, 1),
-                   rx(r'\*n\.parentpointer = false;', 'sc_store_b(n->parentpointer, false);', 1, 1),
-                   rx(r'\*n\.childpointers\[(\d)\] = n\.sense;', r'sc_store_b(n->childpointers[\1], n->sense);', 2, 2)]
-MCS_WAIT_TM = MCS_WAIT_COMMON + [rx(r'n\.childnotready\[(\d)\]', r'sc_load_b(&n->childnotready[\1])', 4, 4), rx(r'n\.parentsense != n\.sense', 'sc_load_b(&n->parentsense) != n->sense', 1, 1),
-                                 ren('galois::substrate::asmPause', 'asmPause'), rx(r'(?<![\w.>])n\.', 'n->', 6)]
-MCS_WAIT_SC = MCS_WAIT_COMMON + [rx(r'while \(n\.childnotready\[0\] \|\| n\.childnotready\[1\] \|\| n\.childnotready\[2\] \|\|\s*n\.childnotready\[3\]\) \{\s*galois::substrate::asmPause\(\);\s*\}',
-                                    'SC_AWAIT(tid, 1, 0, !(n->childnotready[0].v || n->childnotready[1].v || n->childnotready[2].v || n->childnotready[3].v));', 1, 1),
-                                 rx(r'while \(n\.parentsense != n\.sense\) \{\s*galois::substrate::asmPause\(\);\s*\}', 'SC_AWAIT(tid, 2, 0, n->parentsense.v == n->sense);', 1, 1),
-                                 rx(r'(?<![\w.>])n\.', 'n->', 6)]
+                   rx(r'n\.childnotready\[(\w+)\] = ([^;]+);', r'sc_store_b(&n->childnotready[\1], \2);', 1),
+                   rx(r'\*n\.parentpointer = ([^;]+);', r'sc_store_b(n->parentpointer, \1);', 1),
+                   rx(r'\*n\.childpointers\[(\w+)\] = ([^;]+);', r'sc_store_b(n->childpointers[\1], \2);', 1)]
+MCS_WAIT_TM = MCS_WAIT_COMMON + [rx(r'n\.childnotready\[(\w+)\]', r'sc_load_b(&n->childnotready[\1])', 1), rx(r'n\.parentsense(?![\w])', 'sc_load_b(&n->parentsense)', 1), PAUSE, rx(r'(?<![\w.>])n\.', 'n->', 3)]
+MCS_WAIT_SC = MCS_WAIT_COMMON + [rx(r'n\.childnotready\[(\w+)\]', r'n->childnotready[\1].v', 1), rx(r'n\.parentsense(?![\w])', 'n->parentsense.v', 1), spin_sc(2), rx(r'(?<![\w.>])n\.', 'n->', 3)]
 CNR_CLEAN = ' && '.join('GV_CELL_CLEAN(ME.childnotready[%d])' % i for i in range(4))
 UNITS.append(Unit(
     name='MCS_wait', src=MCS, within=MW, anchor=r'virtual void wait\(\)', proto='void MCS_wait(unsigned tid)',
@@ -181,7 +183,6 @@ __CPROVER_assigns(g_seq, __CPROVER_object_whole(&ME), __CPROVER_object_whole(&PP
 
 
 MCS_SC_T = """
-#define SC_PRED(t) (sc_site[t] == 1 ? !(NODES[t].childnotready[0].v || NODES[t].childnotready[1].v || NODES[t].childnotready[2].v || NODES[t].childnotready[3].v) : (NODES[t].parentsense.v == NODES[t].sense))
 #include "gv_sc.h"
 """ + MCS_T + "void MCS_wait_sc(unsigned tid);\n"
 UNITS.append(Unit(name='MCS_reinit_sc', kind='assumed', src=MCS, within=MW, anchor=r'void _reinit\(unsigned P\)', proto='void MCS_reinit_sc(unsigned P)', contract='', lower=MCS_REINIT_RULES))
@@ -218,10 +219,11 @@ struct LocalData { int parity; int sense; struct dnode myflags[GV_NFLAGS]; };
 struct LocalData LD[GV_MAXT]; unsigned NN; unsigned LogP;
 static inline struct LocalData* ld_at(unsigned i) { __CPROVER_assert(i < NN, "nodes.at(): index in range"); return &LD[i]; }
 static inline void ld_resize(unsigned n) { __CPROVER_assert(n <= GV_MAXT, "configuration bound"); NN = n; }
+#define DIS_PARTNER(ld, r) (ld)->myflags[r].partner
 """
 DIS_MACROS = [dict(src=DIS, anchor=r'#define FAST_LOG2\(x\).*?\n\n', lower=[])]
 DIS_REINIT_RULES = [rx(r'nodes\.resize\(P\)', 'ld_resize(P)', 1, 1), rx(r'LocalData& lhs = nodes\.at\(i\)\.get\(\);', 'struct LocalData* lhs = ld_at(i);', 1, 1),
-                    rx(r'LocalData& rhs\s*=\s*nodes\.at\(\(i \+ d\) % P\)\.get\(\);', 'struct LocalData* rhs = ld_at((i + (unsigned)d) % P);', 1, 1),
+                    rx(r'LocalData& rhs\s*=\s*nodes\.at\((.+?)\)\.get\(\);', r'struct LocalData* rhs = ld_at(\1);', 1, 1),
                     rx(r'sizeof\(lhs\.myflags\) / sizeof\(\*lhs\.myflags\)', '(sizeof(lhs->myflags) / sizeof(*lhs->myflags))', 1, 1),
                     rx(r'lhs\.myflags\[j\]\.flag\[0\] = lhs\.myflags\[j\]\.flag\[1\] = 0;', '{ lhs->myflags[j].flag[0].v = 0; lhs->myflags[j].flag[1].v = 0; }', 1, 1),
                     rx(r'&rhs\.myflags', '&rhs->myflags', 1, 1), rx(r'(?<![\w.>])lhs\.', 'lhs->', 3)]
@@ -243,16 +245,17 @@ __CPROVER_assigns(NN, LogP, __CPROVER_object_whole(LD))""" % dis_facts('g_s', 'g
     says='dissemination barrier tables for every participant count <= 8: ceil(log2 P) rounds; for an arbitrary node s and round r the partner is flag slot r of node (s + 2^r) mod P; parity 0, sense 1, all flags 0 -- whatever the previous state'))
 
 DIS_WAIT_COMMON = [rx(r'auto& ld\s*=\s*nodes\.at\(galois::substrate::ThreadPool::getTID\(\)\)\.get\(\);', 'struct LocalData* ld = ld_at(tid);', 1, 1),
-                   rx(r'auto& sense\s*=\s*ld\.sense;\s*auto& parity\s*=\s*ld\.parity;', '', 1, 1),
-                   rx(r'ld\.myflags\[r\]\.partner->flag\[parity\] = sense;', 'sc_store_i(&ld->myflags[r].partner->flag[ld->parity], ld->sense);', 1, 1),
-                   rx(r'if \(parity == 1\)\s*sense = 1 - ld\.sense;\s*parity = 1 - parity;', 'if (ld->parity == 1) ld->sense = 1 - ld->sense; ld->parity = 1 - ld->parity;', 1, 1)]
-DIS_WAIT_SC = DIS_WAIT_COMMON + [rx(r'while \(ld\.myflags\[r\]\.flag\[parity\] != sense\) \{\s*galois::substrate::asmPause\(\);\s*\}', 'SC_AWAIT(tid, 1, r, ld->myflags[r].flag[ld->parity].v == ld->sense);', 1, 1)]
-DIS_WAIT_TM = DIS_WAIT_COMMON + [rx(r'while \(ld\.myflags\[r\]\.flag\[parity\] != sense\)', 'while (sc_load_i(&ld->myflags[r].flag[ld->parity]) != ld->sense)', 1, 1), ren('galois::substrate::asmPause', 'asmPause')]
+                   rx(r'auto& sense\s*=\s*ld\.sense;', 'int* sense_p = &ld->sense;', 1, 1), rx(r'auto& parity\s*=\s*ld\.parity;', 'int* parity_p = &ld->parity;', 1, 1),
+                   rx(r'(?<![\w.>])sense(?![\w])', '(*sense_p)', 2), rx(r'(?<![\w.>])parity(?![\w])', '(*parity_p)', 3),
+                   rx(r'ld\.myflags\[(\w+)\]\.partner->flag\[([^\]]+)\] = ([^;]+);', r'sc_store_i(&DIS_PARTNER(ld, \1)->flag[\2], \3);', 1)]
+DIS_WAIT_SC = DIS_WAIT_COMMON + [rx(r'ld\.myflags\[(\w+)\]\.flag\[([^\]]+)\]', r'ld->myflags[\1].flag[\2].v', 1), spin_sc(1), rx(r'(?<![\w.>])ld\.', 'ld->', 0)]
+DIS_WAIT_TM = DIS_WAIT_COMMON + [rx(r'ld\.myflags\[(\w+)\]\.flag\[([^\]]+)\]', r'sc_load_i(&ld->myflags[\1].flag[\2])', 1), PAUSE, rx(r'(?<![\w.>])ld\.', 'ld->', 0)]
 DIS_T1 = """
 /* the step contract looks at the caller's own LocalData and at the flag slots its partners own (PF[r] = partner of round r) */
 /* the partner pointers (written only by _reinit) are kept beside the node so that loop frames need not mention them */
 struct dnode { sc_i flag[2]; };
 struct LocalData { int parity; int sense; struct dnode myflags[32]; };
+#define DIS_PARTNER(ld, r) ME_partner[r]
 struct LocalData ME; struct dnode PF[32]; struct dnode* ME_partner[32]; unsigned NN, LogP, g_tid, g_r; int g_par0, g_sense0; unsigned g_seq_r;
 static inline struct LocalData* ld_at(unsigned i) { __CPROVER_assert(i < NN, "nodes.at(): index in range"); __CPROVER_assert(i == g_tid, "own node only"); return &ME; }
 static inline void asmPause(void) {}
@@ -272,27 +275,26 @@ __CPROVER_ensures(UNTOUCHED(g_r, 1 - g_par0))
 /* phase state for the next wait: parity flips, sense flips every second phase */
 __CPROVER_ensures(ME.parity == 1 - g_par0 && ME.sense == (g_par0 == 1 ? 1 - g_sense0 : g_sense0))
 __CPROVER_assigns(g_seq, g_seq_r, __CPROVER_object_whole(&ME), __CPROVER_object_whole(PF))""",
-    prelude=['#include "gv_cells.h"\n#define GV_MAXT 16u\n', DIS_T1], lower=DIS_WAIT_TM + [rx(r'ld->myflags\[r\]\.partner->', 'ME_partner[r]->', 1, 1)],
+    prelude=['#include "gv_cells.h"\n#define GV_MAXT 16u\n', DIS_T1], lower=DIS_WAIT_TM,
     harness_pre='for (unsigned q = 0; q < 32; ++q) ME_partner[q] = &PF[q];',
-    loops={1: '__CPROVER_assigns(r, g_seq, g_seq_r, __CPROVER_object_whole(&ME), __CPROVER_object_whole(PF))\n__CPROVER_loop_invariant(r <= LogP && ld == &ME && ME.parity == g_par0 && ME.sense == g_sense0'
+    loops={1: '__CPROVER_assigns(r, g_seq, g_seq_r, __CPROVER_object_whole(&ME), __CPROVER_object_whole(PF))\n__CPROVER_loop_invariant(r <= LogP && ld == &ME && sense_p == &ME.sense && parity_p == &ME.parity && ME.parity == g_par0 && ME.sense == g_sense0'
               ' && (g_r < r ? (DONE(g_r) && ME.myflags[g_r].flag[g_par0].rseq <= g_seq) : (UNTOUCHED(g_r, g_par0) && PF[g_r].flag[g_par0].wseq == 0)) && UNTOUCHED(g_r, 1 - g_par0)'
               ' && (g_r + 1 < r ? (PF[g_r + 1].flag[g_par0].nw == 1 && PF[g_r + 1].flag[g_par0].wseq > ME.myflags[g_r].flag[g_par0].rseq) : (g_r < 31 ==> (PF[g_r + 1].flag[g_par0].nw == 0 && PF[g_r + 1].flag[g_par0].wseq == 0))))\n__CPROVER_decreases(LogP - r)',
-           2: '__CPROVER_assigns(g_seq, __CPROVER_object_upto((char*)&ME.myflags[r].flag[g_par0], sizeof(sc_i)))\n__CPROVER_loop_invariant(ld == &ME && g_seq >= __CPROVER_loop_entry(g_seq) && (r == g_r ==> ME.myflags[r].flag[g_par0].nw == 0))'},
+           2: '__CPROVER_assigns(g_seq, __CPROVER_object_upto((char*)&ME.myflags[r].flag[g_par0], sizeof(sc_i)))\n__CPROVER_loop_invariant(ld == &ME && sense_p == &ME.sense && parity_p == &ME.parity && g_seq >= __CPROVER_loop_entry(g_seq) && (r == g_r ==> ME.myflags[r].flag[g_par0].nw == 0))'},
     fallback_unwind=34, no_flags=['--conversion-check'], timeout=1200, reach_unwind=34, witness='LogP == 2 && g_r == 0 && ME.parity == 1 && ME.sense == 0',
     says='one dissemination wait(): for an arbitrary round below ceil(log2 P) the partner flag of the current parity is set once to the current sense, then the own flag is read equal to it; rounds in order; flags of the other parity untouched; parity flips and sense flips every second phase'))
 
 DIS_SC_T = """
 #define GV_NFLAGS 4   /* capacity constant of the real struct is 32; rounds used here: <= 2 */
-#define SC_PRED(t) (LD[t].myflags[sc_arg[t]].flag[LD[t].parity].v == LD[t].sense)
 #include "gv_sc.h"
 """ + DIS_T + "void Dissemination_wait_sc(unsigned tid);\n"
 UNITS.append(Unit(name='Dissemination_reinit_sc', kind='assumed', src=DIS, within=DW, anchor=r'void _reinit\(unsigned P\)', proto='void Dissemination_reinit_sc(unsigned P)', contract='', lower=DIS_REINIT_RULES))
-for (P_, PH_, tier_) in ((2, 3, 'quick'), (3, 2, 'quick'), (3, 3, 'thorough')):
+for (P_, PH_, tier_) in ((2, 3, 'quick'), (2, 4, 'thorough')):   # 3 threads x 2 phases did not finish in 40 minutes
     UNITS.append(Unit(
         name='Dissemination_phases_bounded_%dx%d' % (P_, PH_), kind='bounded', unwind=6, dfcc=False, bound_desc='%d threads x %d phases, sequentially consistent interleavings; flag array capacity 4 instead of 32' % (P_, PH_), tier=tier_,
         src=DIS, within=DW, anchor=r'virtual void wait\(\)', proto='void Dissemination_wait_sc(unsigned tid)', contract='',
         prelude=sc_prelude(P_, PH_, DIS_SC_T), pre_extract=DIS_MACROS, lower=DIS_WAIT_SC, inline=['Dissemination_reinit_sc'],
-        reach=True, flags=['--no-standard-checks'], no_flags=SC_NOFLAGS, timeout=2400,
+        reach=True, flags=['--no-standard-checks'], no_flags=SC_NOFLAGS, timeout=2400, reach_timeout=1200,
         says='BOUNDED: %d participants, %d consecutive phases on the tables built by the extracted _reinit: phase separation, no thread waits forever, end reachable' % (P_, PH_),
         **sc_harness(P_, PH_, '  Dissemination_reinit_sc(SC_P);\n', 'Dissemination_wait_sc(tid)')))
 
@@ -317,20 +319,19 @@ static inline unsigned* sense_at(unsigned i) { __CPROVER_assert(i < GV_MAXT, "th
 /* what HWTopo guarantees: thread 0 on socket 0; socket ids appear densely; leader = lowest thread of the socket */
 #define TOPO_OK1(t) (TLEAD(t) <= (t) && TSOCK(TLEAD(t)) == TSOCK(t) && TLEAD(TLEAD(t)) == TLEAD(t) && TSOCK(t) <= TCMS(t) && ((t) == 0 ? (TSOCK(0) == 0 && TCMS(0) == 0) : (TCMS(t) == (TSOCK(t) > TCMS((t) - 1) ? TSOCK(t) : TCMS((t) - 1)) && TSOCK(t) <= TCMS((t) - 1) + 1)))
 """
-TOPO_REINIT_RULES = [rx(r'auto& tp\s*=\s*galois::substrate::getThreadPool\(\);', '', 1, 1), rx(r'tp\.getCumulativeMaxSocket\(P - 1\)', 'TCMS(P - 1)', 1, 1),
+TOPO_REINIT_RULES = [rx(r'auto& tp\s*=\s*galois::substrate::getThreadPool\(\);', '', 1, 1), rx(r'tp\.getCumulativeMaxSocket\(([^()]+)\)', r'TCMS(\1)', 1),
                      rx(r'treenode& n\s*=\s*\*nodes\.getRemoteByPkg\(i\);', 'struct topo_node* n = sn_at(i);', 1, 1), rx(r'n\.childnotready = 0;', 'n->childnotready.v = 0;', 1, 1),
-                     rx(r'\+\+n\.childnotready;', 'n->childnotready.v++;', 2, 2), rx(r'tp\.getSocket\(j\) == i && !tp\.isLeader\(j\)', 'TSOCK(j) == i && !(TLEAD(j) == j)', 1, 1),
+                     rx(r'\+\+n\.childnotready;', 'n->childnotready.v++;', 2, 2), rx(r'tp\.getSocket\((\w+)\)', r'TSOCK(\1)', 0), rx(r'tp\.isLeader\((\w+)\)', r'(TLEAD(\1) == (\1))', 0),
                      rx(r'nodes\.getRemoteByPkg\(', 'sn_at(', 3, 3), rx(r'n\.parentsense = 0;', 'n->parentsense.v = 0;', 1, 1), rx(r'\*sense\.getRemote\(i\) = 1;', '*sense_at(i) = 1;', 1, 1),
                      rx(r'(?<![\w.>])n\.', 'n->', 5)]
 TOPO_WAIT_COMMON = [rx(r'unsigned id = galois::substrate::ThreadPool::getTID\(\);', 'unsigned id = tid;', 1, 1), rx(r'treenode& n = \*nodes\.getLocal\(\);', 'struct topo_node* n = sn_at(TSOCK(tid));', 1, 1),
                     rx(r'unsigned& s = \*sense\.getLocal\(\);', 'unsigned* s_p = sense_at(tid);', 1, 1), rx(r'bool leader = galois::substrate::ThreadPool::isLeader\(\);', 'bool leader = (TLEAD(tid) == tid);', 1, 1),
-                    rx(r'n\.childnotready = n\.havechild;', 'sc_store_u(&n->childnotready, n->havechild);', 1, 1), rx(r'--n\.parentpointer->childnotready;', 'sc_dec_u(&n->parentpointer->childnotready);', 1, 1),
-                    rx(r'--n\.childnotready;', 'sc_dec_u(&n->childnotready);', 1, 1), rx(r'n\.childpointers\[(\d)\]->parentsense = s;', r'sc_store_u(&n->childpointers[\1]->parentsense, (*s_p));', 2, 2),
-                    rx(r'n\.parentsense = s;', 'sc_store_u(&n->parentsense, (*s_p));', 1, 1), rx(r'\+\+s;', '++(*s_p);', 1, 1)]
-TOPO_WAIT_SC = TOPO_WAIT_COMMON + [rx(r'while \(n\.childnotready\) \{\s*galois::substrate::asmPause\(\);\s*\}', 'SC_AWAIT(tid, 1, 0, n->childnotready.v == 0);', 1, 1),
-                                   rx(r'while \(n\.parentsense != s\) \{\s*galois::substrate::asmPause\(\);\s*\}', 'SC_AWAIT(tid, 2, 0, n->parentsense.v == (*s_p));', 1, 1), rx(r'(?<![\w.>])n\.', 'n->', 3)]
-TOPO_WAIT_TM = TOPO_WAIT_COMMON + [rx(r'while \(n\.childnotready\)', 'while (sc_load_u(&n->childnotready))', 1, 1), rx(r'while \(n\.parentsense != s\)', 'while (sc_load_u(&n->parentsense) != (*s_p))', 1, 1),
-                                   ren('galois::substrate::asmPause', 'asmPause'), rx(r'(?<![\w.>])n\.', 'n->', 3)]
+                    rx(r'(?<![\w.>])s(?![\w])', '(*s_p)', 3),
+                    rx(r'--n\.parentpointer->childnotready;', 'sc_dec_u(&n->parentpointer->childnotready);', 0), rx(r'--n\.childnotready;', 'sc_dec_u(&n->childnotready);', 0),
+                    rx(r'n\.childnotready = ([^;]+);', r'sc_store_u(&n->childnotready, \1);', 1), rx(r'n\.childpointers\[(\w+)\]->parentsense = ([^;]+);', r'sc_store_u(&n->childpointers[\1]->parentsense, \2);', 1),
+                    rx(r'n\.parentsense = ([^;]+);', r'sc_store_u(&n->parentsense, \1);', 1)]
+TOPO_WAIT_SC = TOPO_WAIT_COMMON + [rx(r'n\.childnotready(?![\w])', 'n->childnotready.v', 1), rx(r'n\.parentsense(?![\w])', 'n->parentsense.v', 1), spin_sc(2), rx(r'(?<![\w.>])n\.', 'n->', 3)]
+TOPO_WAIT_TM = TOPO_WAIT_COMMON + [rx(r'n\.childnotready(?![\w])', 'sc_load_u(&n->childnotready)', 1), rx(r'n\.parentsense(?![\w])', 'sc_load_u(&n->parentsense)', 1), PAUSE, rx(r'(?<![\w.>])n\.', 'n->', 3)]
 TOPO_RT = """
 unsigned g_s, g_t, g_pkgs, g_cnt[GV_MAXT + 1];   /* g_cnt[j] = number of non-leader threads < j on the probe socket g_s (ghost prefix count, defined in the precondition) */
 #define NCHILD(s, pk) ((unsigned)((4 * (s) + 1) < (pk)) + (unsigned)((4 * (s) + 2) < (pk)) + (unsigned)((4 * (s) + 3) < (pk)) + (unsigned)((4 * (s) + 4) < (pk)))
@@ -391,7 +392,6 @@ __CPROVER_assigns(g_seq, MYSENSE, __CPROVER_object_whole(&ME), __CPROVER_object_
     says='one TopoBarrier wait() for a leader / non-leader / thread 0: arrival published (socket counter re-armed by the leader before it tells the parent socket), release observed on the socket\'s parentsense, wake-up children told once with the sense of this phase, own sense advanced -- in that order'))
 
 TOPO_SC_T = """
-#define SC_PRED(t) (sc_site[t] == 1 ? SN[TSOCK(t)].childnotready.v == 0 : SN[TSOCK(t)].parentsense.v == SENSE[t])
 #include "gv_sc.h"
 bool nondet_bool(void);
 """ + TOPO_T + "void Topo_wait_sc(unsigned tid);\n"
@@ -450,7 +450,7 @@ static inline void mon_wait(struct OW* b)
 static inline void notify_all(void) {}
 """
 OW_WAIT_TM = [rx(r'std::unique_lock<std::mutex> tmp\(lock\);', 'mon_lock(self);', 1, 1),
-              rx(r'cond\.wait\(tmp, \[this\]\(\) \{ return count >= total; \}\);', 'while (!(count >= total)) { mon_wait(self); }', 1, 1),
+              rx(r'cond\.wait\(tmp, \[this\]\(\) \{ return ([^;]+); \}\);', r'while (!(\1)) { mon_wait(self); }', 1, 1),
               rx(r'cond\.notify_all\(\);', 'notify_all();', 1, 1), OW_FIELDS, rx(r'\A(.*\S)\s*\Z', r'\1\n    mon_unlock(self);   /* ~unique_lock */\n', 1, 1, flags=re.S)]
 UNITS.append(Unit(
     name='OneWayBarrier_wait', src=SIM, within=OWW, anchor=r'virtual void wait\(\)', proto='void OneWayBarrier_wait(struct OW* self)',
@@ -488,7 +488,6 @@ __CPROVER_assigns(g_nlog, g_reinit_in_wait, __CPROVER_object_whole(g_log))""",
     says='SimpleBarrier::wait is the two one-way barriers back to back and nothing else (a reset by one thread outside the mutex, as before the fix, is a violation)'))
 
 SIM_SC_T = """
-#define SC_PRED(t) (sc_arg[t] == 0 ? (!OWB[0].lock.locked && OWB[0].count >= OWB[0].total) : (!OWB[1].lock.locked && OWB[1].count >= OWB[1].total))
 #include "gv_sc.h"
 struct OW { sc_mutex lock; unsigned count, total, left; };
 struct OW OWB[2];
@@ -498,7 +497,7 @@ void Simple_wait_sc(unsigned tid);
 static inline void notify_all(void) {}
 """
 OW_WAIT_SC = [rx(r'std::unique_lock<std::mutex> tmp\(lock\);', 'sc_lock(&self->lock);', 1, 1),
-              rx(r'cond\.wait\(tmp, \[this\]\(\) \{ return count >= total; \}\);', 'sc_cond_wait(tid, 2, self - OWB, &self->lock, count >= total);', 1, 1),
+              rx(r'cond\.wait\(tmp, \[this\]\(\) \{ return ([^;]+); \}\);', r'sc_cond_wait(tid, &self->lock, \1);', 1, 1),
               rx(r'cond\.notify_all\(\);', 'notify_all();', 1, 1), OW_FIELDS, rx(r'\A(.*\S)\s*\Z', r'\1\n    sc_unlock(&self->lock);   /* ~unique_lock */\n', 1, 1, flags=re.S)]
 UNITS.append(Unit(name='OneWay_wait_sc', kind='assumed', src=SIM, within=OWW, anchor=r'virtual void wait\(\)', proto='void OneWay_wait_sc(struct OW* self, unsigned tid)', contract='', lower=OW_WAIT_SC))
 UNITS.append(Unit(name='OneWay_reinit_sc', kind='assumed', src=SIM, within=OWW, anchor=r'virtual void reinit\(unsigned val\)', proto='void OneWay_reinit_sc(struct OW* self, unsigned val)', contract='', lower=[OW_FIELDS]))
